@@ -260,9 +260,23 @@ class Body:
             return out or [o]
         return [o]
 
+    def _const_index(self, proj):
+        """replace Index(local) by a constant index when the local is a single constant"""
+        out = []
+        for e in proj:
+            if isinstance(e, list) and e[0] == "i":
+                sd = self.single_def(e[1])
+                if sd and sd[2] == "assign" and sd[3]["rv"]["k"] == "use":
+                    c = sd[3]["rv"]["op"].get("c")
+                    if c and "int" in c:
+                        out.append(["ci", c["int"], 0, False])
+                        continue
+            out.append(e)
+        return out
+
     def place_origin(self, p, depth=0):
         l = p["l"]
-        proj = p.get("p", [])
+        proj = self._const_index(p.get("p", []))
         if 1 <= l <= self.argc:
             return ("param", l, _projkey(proj))
         sd = self.single_def(l)
